@@ -182,6 +182,149 @@ def end_to_end(run, rng, nfiles):
                           {"op": "e2e", "groups": groups, "channels": chans}, actual=detail)
 
 
+def e2e_multi(run, rng, nfiles):
+    """Several write_segment calls over names that coincide across roles (a group named like another group's
+    channel, object lists whose path strings concatenate to the same text: [group a, group b, ...] against
+    [channel (a, b), ...]); every channel must read back, eagerly AND lazily (whole, by index), exactly what was
+    written under its own (group, channel) pair, and report its own names."""
+    import numpy as np
+    from nptdms import TdmsWriter, TdmsFile, ChannelObject, GroupObject
+    alpha = ["a", "b", "'", "/", "'/'", "", "é"]
+    for k in range(nfiles):
+        def name():
+            return "".join(rng.choice(alpha) for _ in range(rng.randint(0, 2)))
+        n1, n2 = name(), name()
+        others = set()
+        while len(others) < rng.randint(1, 3):
+            pr = (name(), name())
+            if pr != (n1, n2):
+                others.add(pr)
+        others = sorted(others)
+        chans = [(n1, n2)] + others
+        written = {pr: [] for pr in chans}
+        val = [0]
+
+        def data(pr):
+            n = rng.randint(1, 3)
+            arr = np.arange(val[0], val[0] + n, dtype=np.int32)
+            val[0] += n
+            written[pr].append(arr)
+            return arr
+        calls = []
+        for _ in range(rng.randint(1, 2)):
+            calls.append(("chans", list(chans)))
+        # the coincidence: the two names of channel (n1, n2) listed as GROUPS, followed by the same other channels
+        calls.append(("groups", [n1, n2], list(others)))
+        if rng.random() < 0.5:
+            calls.append(("chans", list(chans)))
+        case = {"op": "e2e_multi", "names": [n1, n2], "others": [list(x) for x in others],
+                "calls": [c[0] for c in calls]}
+        ok, detail = True, None
+        try:
+            buf = io.BytesIO()
+            with TdmsWriter(buf) as w:
+                for c in calls:
+                    if c[0] == "chans":
+                        w.write_segment([ChannelObject(g, ch, data((g, ch))) for (g, ch) in c[1]])
+                    else:
+                        gs = []
+                        for g in c[1]:
+                            if g not in gs:
+                                gs.append(g)
+                        w.write_segment([GroupObject(g, {"note": "G" + g}) for g in gs] +
+                                        [ChannelObject(g, ch, data((g, ch))) for (g, ch) in c[2]])
+            raw = buf.getvalue()
+            expected = {pr: np.concatenate(v) for pr, v in written.items()}
+            for mode in ("read", "open"):
+                f = TdmsFile.read(io.BytesIO(raw)) if mode == "read" else TdmsFile.open(io.BytesIO(raw))
+                try:
+                    for (g, c), exp in expected.items():
+                        ch = f[g][c]
+                        op = ObjectPath.from_string(ch.path)
+                        got = [int(x) for x in ch[:]]
+                        byidx = [int(ch[i]) for i in range(len(ch))]
+                        if (ch.name, ch.group_name, op.group, op.channel) != (c, g, g, c) or \
+                                got != exp.tolist() or byidx != exp.tolist():
+                            ok, detail = False, (mode, g, c, ch.name, ch.group_name, ch.path, got, byidx, exp.tolist())
+                            break
+                finally:
+                    f.close()
+                if not ok:
+                    break
+        except Exception as e:     # noqa: BLE001
+            ok, detail = False, ("exception", repr(e))
+        run.cov["evaluations"] += 1
+        run.cov["distinct_nontrivial"] += 1
+        run.count("end_to_end_multi_segment_files")
+        if not ok:
+            run.violation("end-to-end", "channels confused with one another or names not preserved (several segments, "
+                          "names coinciding across roles): %r" % (detail,), case, actual=detail)
+
+
+def e2e_implied_groups(run, rng, nfiles):
+    """Hand-encoded files in which groups exist only through their channels' paths (no group object anywhere;
+    TdmsWriter never produces these): group.name / path, channel.group_name and lookups must be the names in the
+    channels' paths."""
+    import struct
+    from nptdms import TdmsFile
+    alpha = ["a", "b", "'", "/", " ", "", "é", "north 東"]
+
+    def s(x):
+        b = x.encode("utf-8")
+        return struct.pack("<L", len(b)) + b
+    for k in range(nfiles):
+        groups = set()
+        while len(groups) < rng.randint(2, 4):
+            groups.add("".join(rng.choice(alpha) for _ in range(rng.randint(0, 2))))
+        groups = sorted(groups)
+        rng.shuffle(groups)
+        objs, data, expected = [], b"", []
+        v = 0
+        for g in groups:
+            for c in rng.sample(["x", "y'", "/z"], rng.randint(1, 2)):
+                v += 1
+                objs.append(s(str(ObjectPath(g, c))) + struct.pack("<LLLQ", 20, 3, 1, 1) + struct.pack("<L", 0))
+                data += struct.pack("<l", v)
+                expected.append((g, c, v))
+        if rng.random() < 0.5:
+            objs.append(s("/") + struct.pack("<L", 0xFFFFFFFF) + struct.pack("<L", 0))     # root object LAST
+        meta = struct.pack("<L", len(objs)) + b"".join(objs)
+        raw = b"TDSm" + struct.pack("<l", 0xE) + struct.pack("<lQQ", 4713, len(meta) + len(data), len(meta)) + meta + data
+        case = {"op": "e2e_implied", "hex": raw.hex(), "groups": groups}
+        ok, detail = True, None
+        try:
+            for mode in ("read", "open"):
+                f = TdmsFile.read(io.BytesIO(raw)) if mode == "read" else TdmsFile.open(io.BytesIO(raw))
+                try:
+                    seen = [g.name for g in f.groups()]
+                    order = []
+                    for g, c, v_ in expected:
+                        if g not in order:
+                            order.append(g)
+                    if seen != order:
+                        ok, detail = False, (mode, "groups", order, seen)
+                    for g, c, v_ in expected:
+                        if not ok:
+                            break
+                        grp = f[g]
+                        ch = grp[c]
+                        if grp.name != g or ObjectPath.from_string(grp.path).group != g or \
+                                (ch.name, ch.group_name) != (c, g) or [int(x) for x in ch[:]] != [v_]:
+                            ok, detail = False, (mode, g, c, grp.name, grp.path, ch.name, ch.group_name)
+                finally:
+                    f.close()
+                if not ok:
+                    break
+        except Exception as e:     # noqa: BLE001
+            ok, detail = False, ("exception", repr(e))
+        run.cov["evaluations"] += 1
+        run.cov["distinct_nontrivial"] += 1
+        run.count("end_to_end_implied_group_files")
+        if not ok:
+            run.violation("end-to-end", "groups that exist only through their channels report wrong names: %r"
+                          % (detail,), case, actual=detail)
+
+
 def replay(run, case):
     op = case.get("op")
     if op == "pair":
@@ -192,6 +335,10 @@ def replay(run, case):
         run_raw(run, [case["path"]], "replay")
     elif op == "e2e":
         end_to_end(run, random.Random(run.seed), 50)
+    elif op == "e2e_multi":
+        e2e_multi(run, random.Random(run.seed), 800)
+    elif op == "e2e_implied":
+        e2e_implied_groups(run, random.Random(run.seed), 600)
     else:
         print("replay: nothing to re-run for kind", op)
 
@@ -220,6 +367,8 @@ def main():
         rnd.append((g, c))
     run_pairs(run, rnd, "random_unicode_pairs")
     end_to_end(run, rng, run.pick(40, 600))
+    e2e_multi(run, rng, run.pick(60, 800))
+    e2e_implied_groups(run, rng, run.pick(40, 600))
     run.cov["exhaustive"] = True
     run.cov["rule"] = ("exhaustive: every (group, channel) pair of strings of length <= %d over {quote, slash, space, a} "
                        "(plus root and group-only), every raw path string of length <= %d over {quote, slash, a}; "
